@@ -3,7 +3,7 @@
  *
  * mode 0  model + prediction + separation + affine invariance:
  *         classes 2..5 x features 2..4[..6] x sizes {(4,4..),(6,4..),(12,4..),(40,5..)} x label base {0,1}
- *         x centre layout {lattice, collinear-uneven} x separation {overlapping, well separated} x 6 affine maps
+ *         x centre layout {lattice, collinear-uneven} x separation {overlapping, well separated} x 7 affine maps
  * mode 1  row-order invariance: all 8! orders of the 2x4 data set, 8 fixed permutations otherwise
  * mode 2  LDAMulticlassStatistics on perfect predictions numbered from 0
  *
@@ -335,7 +335,7 @@ static void choose_data(dcfg *c) {
   c->K = 2 + vx_choose("classes-2", 4); c->p = 2 + vx_choose("features-2", T ? 5 : 3); c->sz = vx_choose("sizes", 4);
 }
 static void affine_map(int id, int p, double *A, double *cvec) {
-  static const double KAP[6] = {1, 1, 10, 10, 100, 100}, S1[6] = {1, 1, 3, 1, 2, 5};
+  static const double KAP[7] = {1, 1, 10, 10, 100, 100, 1}, S1[7] = {1, 1, 3, 1, 2, 5, 1e-5};   /* the last: features in units 1e5 times smaller */
   double s[PMAX];
   for (int j = 0; j < p; j++) s[j] = S1[id] * pow(KAP[id], -(double)j / (p - 1));
   vg_spectral_s(40 + id, p, p, s, A);
@@ -349,7 +349,7 @@ static matrix *apply(const matrix *X, int p, const double *A, const double *cvec
 /* the library flushes a column average whose raw SUM is within 1e-6 of zero (C11 known finding): keep clear of it */
 static int near_flush(const dcfg *c, const matrix *X, const int *cls) {
   for (int j = 0; j < c->p; j++) { ld tot = 0, s[KMAX] = {0}; for (int i = 0; i < c->n; i++) { tot += X->data[i][j]; s[cls[i]] += X->data[i][j]; }
-    if (fabsl(tot) < 1e-4L) return 1; for (int k = 0; k < c->K; k++) if (fabsl(s[k]) < 1e-4L) return 1; }
+    if (fabsl(tot) < 4e-6L) return 1; for (int k = 0; k < c->K; k++) if (fabsl(s[k]) < 4e-6L) return 1; }
   return 0;
 }
 
@@ -357,7 +357,7 @@ static void mode_model(void) {
   dcfg c; choose_data(&c);
   c.base = vx_choose("labelbase", 2); c.layout = vx_choose("layout", 2); c.sep = vx_choose("separation", 2);
   c.fam = vx_choose("fam", vx_thorough() ? 3 : 1);
-  int map = vx_choose("affine", 6);
+  int map = vx_choose("affine", 7);
   matrix *X, *Y; int *cls; gen(&c, &X, &Y, &cls);
   matrix *xt = testset(&c, X);
   ref_t r; ref_build(&c, X, cls, &r);
@@ -457,7 +457,7 @@ static void body(void) {
 
 int main(int argc, char **argv) {
   vg_seed(getenv("VERIF_SEED") ? atol(getenv("VERIF_SEED")) : 0);
-  vx_describe("alphabet", "classes 2..5 x features 2..4[..6] x sizes {(4,4..),(6,4..),(12,4..),(40,5..)} x label base {0,1} x centres {lattice, collinear 0/1/10/11/30} x separation {0.5, 8} x 6 affine maps (kappa 1,10,100, with/without translation); row orders: all 8! for the 2x4 set, 8 fixed permutations otherwise; ROC: classes x sizes x 3 arrangements");
+  vx_describe("alphabet", "classes 2..5 x features 2..4[..6] x sizes {(4,4..),(6,4..),(12,4..),(40,5..)} x label base {0,1} x centres {lattice, collinear 0/1/10/11/30} x separation {0.5, 8} x 7 affine maps (kappa 1,10,100, with/without translation; pure scaling by 1e-5); row orders: all 8! for the 2x4 set, 8 fixed permutations otherwise; ROC: classes x sizes x 3 arrangements");
   vx_describe("oracle", "priors=frequencies; means=class averages (64*eps*(n_k+2)*max|x|); label in training labels and arg-max of stored scores; stored score differences = linear discriminant of the stored model; textbook long-double LDA margin>=20 => zero errors; score differences invariant under affine maps / row order (1e3*eps*(p+n)*kappa(S)*sum|terms|); AUC=1 for perfect predictions; LDAPrediction into reused outputs (same shape, one or both dimensions different) = result with fresh outputs, bit for bit (pfeatures: trailing block, append convention)");
   vx_set_shard_depth(4);
   vx_expect_outcomes(100);
